@@ -21,7 +21,7 @@ CHECKS = {
          "Whenever R has no transition on the character (or EOF) just read, P returns Unexpected with the offset ordinal of exactly that character and that character (None at EOF) before consuming anything further; stream errors carry the offset of the failed pull; surrogate errors carry the held/offending units and a span inside the escapes; C07.entry: every entry point returns the core's error unchanged (Stream(p,_) -> InvalidUtf8(p) on the byte paths), has no verdict of its own (all returning paths pass through the core), starts at offset 0 and records len_utf8 per character, so offsets are byte offsets on character boundaries.",
          "as C01; weak form for surrogate spans (start inside the escape(s), start <= end <= current offset).", "3/C07"),
  "C12": ("model_checking", "same product under the three lenient option valuations + option flow rule + preset evaluation",
-         "P(o) = R(o) (language, outputs, code map events, errors) for the three lenient valuations, where R(o) relaxes exactly the surrogate rules of the enabled flags — judged relative to the strict valuation: a deviation from the reference that the strict parser shows under the same key is left to C01/C02/C05/C07, only deviations specific to a lenient valuation are reported; the flags are read only inside the string scanner; Options::default/strict/flexible evaluate to the documented records.",
+         "P(o) = R(o) (language, outputs, code map events, errors) for the three lenient valuations, where R(o) relaxes exactly the surrogate rules of the enabled flags — judged relative to the strict valuation: a deviation from the reference that the strict parser shows under the same key is left to C01/C02/C05/C07, only deviations specific to a lenient valuation are reported; the flags are read only inside the string scanner; Options::default/strict/flexible evaluate to the documented records; C12.entry: every `_with` entry point hands its options unchanged to the parser and reaches the core on one path per input shape with the whole input as character source, whatever the flags are.",
          "the configuration high-surrogate escape directly followed by another high-surrogate escape is unspecified and not constrained (printed as INFO).", "3/C12"),
  "C04": ("other", "abstract interpretation of the printer: per-character escape table vs RFC 8259/8785, emission token sequences, sizes/index lock-step, per-variant dispatch",
          "Clause-wise: (esc) for every char the text string_literal writes is a valid RFC 8259 string body that decodes back to it and contains no raw quote/backslash/control (which escapes are chosen is C08's business); (tokens) everything the emitters write is a JSON token, a string literal, the number's text, a child, or whitespace from Spaces/IndentBy/newline, for n = 0..N children, expanded and inline; (order) the non-whitespace tokens written equal the document's (children/entries once each, forward, key with its own value; layout is C13's business); (lockstep) one sizes slot reserved/consumed per container at entry, children forward, top level sizes the same value and starts at 0; (dispatch) per Value variant. Whole-value equality of the re-parse is the composition with C01/C02, not mechanised.",
@@ -36,7 +36,7 @@ CHECKS = {
          "All KindSet operators in every operand combination (64x64, 64x6, 6x6), len/is_empty, iterator steps (lowest/highest kind, exact removal, size_hint), the three renderings for all 64 sets, the constants and Value::kind are equal to set semantics: every operation is extracted as a set of (path predicate, result expression) pairs over symbolic mask bits and those expressions are evaluated on the complete domain.",
          "summary table (count_ones, fmt entry points); the set semantics in the rule file.", "3/C20"),
  "C06": ("other", "CFG dominance / call-site / provenance rules over the MIR + abstract interpretation of the index buckets over all order configurations around the pivot",
-         "Necessary structural clauses: entries/indexes private and no public signature exposes &mut Entry / &mut Key / &mut Vec<Entry>; the functions that structurally modify the entry list are exactly the reviewed set; per writer the index maintenance calls exist, in the right dominance order, with the right position (push_entry, push_entry_front, remove_at, sort, canonicalize_with, from_vec, insert); Indexes::shift_down/shift_up/insert/remove interpreted on every order configuration of (representative, others, argument) around the pivot; removal iterators have draining Drop impls and remove through remove_at only.",
+         "Necessary structural clauses: entries/indexes private and no public signature exposes &mut Entry / &mut Key / &mut Vec<Entry>; the functions that structurally modify the entry list are exactly the reviewed set; per writer the index maintenance calls exist, in the right dominance order, with the right position (push_entry, push_entry_front, remove_at, sort, canonicalize_with, from_vec, insert); Indexes::shift_down/shift_up/insert/remove interpreted on every order configuration of (representative, others, argument) around the pivot; removal iterators have Drop impls that exhaust them (last()/count()/for_each()/fold() or a loop around next(), not a single next()) and remove through remove_at only; Object::sort's comparator orders by key and breaks ties by value (its documentation).",
          "NOT decided: equivalence with the ordered-list model over all operation histories; hash/equality coherence of Q, Key and hashbrown. Positions are only compared with each other, so the finitely many order configurations are representative.", "3/C06"),
  "C09": ("other", "abstract interpretation of canonicalize_with per variant / entry count + comparator call-site rule + shared string table and printer rules",
          "Coverage (numbers replaced unconditionally by NumberBuf::from_number(n.canonical_with(buffer)); every array item and entry value canonicalised with the same buffer; members sorted after the children on every path), ordering (the sort's comparator calls Iterator::cmp over encode_utf16() of both keys and no string/entry comparison of its own), strings (RFC 8785 table, total on char) and no-whitespace (compact record, printer model).",
@@ -51,7 +51,7 @@ CHECKS = {
          "PartialEq/PartialOrd/Ord/Hash for Object touch only `entries` of their operands and delegate, on a single unconditional path, to the same method of Vec<Entry> (partial_cmp = Some(cmp)), calling nothing else; Value and Entry carry compiler-derived PartialEq/Eq/PartialOrd/Ord/Hash/Clone; Object: Clone is derived and Eq a marker.",
          "coherence of the dependency types' Eq/Ord/Hash (NumberBuf, SmallString) trusted; derived lexicographic impls are mutually coherent given coherent components.", "3/C14"),
  "C15": ("other", "abstract interpretation of Object::unordered_eq on every small configuration (exact, hash lookup replaced by key positions) + per-variant-pair interpretation of Value::unordered_eq + call-site rules for Vec + interpretation of Indexes::is_redundant",
-         "C15.match: Object::unordered_eq, interpreted from its MIR on every pair of abstract objects with up to 3 (quick) / 4 (thorough) entries over two keys and two value tokens (up to renaming; equal lengths and lengths differing by one; the hash lookup replaced by the positions of the key, the nested comparison by token equality), returns exactly equality of the multisets of (key, value) entries; C15.dispatch: all 36 variant pairs (scalars ==, arrays Vec::unordered_eq, objects Object::unordered_eq, mixed false); C15.vec: Vec::unordered_eq compares lengths and elements position-wise with unordered_eq; C15.redundant: a key is redundant iff it has more than one position and contains_duplicate_keys scans every bucket.",
+         "C15.match: Object::unordered_eq, interpreted from its MIR on every pair of abstract objects with up to 3 (quick) / 4 (thorough) entries over two keys and two value tokens (up to renaming; equal lengths and lengths differing by one; the hash lookup replaced by the positions of the key, the nested comparison by token equality), returns exactly equality of the multisets of (key, value) entries; C15.dispatch: all 36 variant pairs (scalars ==, arrays Vec::unordered_eq, objects Object::unordered_eq, mixed false); C15.vec: Vec::unordered_eq compares lengths and elements position-wise with unordered_eq; C15.redundant: a key is redundant iff it has more than one position and contains_duplicate_keys scans every bucket; C15.index = C06.pair + C06.shift + C06.sorted (unordered_eq finds candidates through the key index, so the writers must keep it exact).",
          "bounded: objects larger than 4 entries / more than two distinct keys or values are covered only by the uniformity of the procedure (it compares keys and values for equality only); nested values are compared through the same function (induction on depth is an argument, not mechanised); hash/equality coherence of keys trusted.", "3/C15"),
  "C18": ("other", "per-variant interpretation of both conversions with the number/string conversions as recorded cut points + panic reachability",
          "Both conversions map every variant to the same-named variant on a single unconditional path; numbers go through the number crate's From impl only, strings through From/into_string, containers through into_iter/map/collect with recursion into every element, objects rebuilt through the push family; every panic source in crate/sibling-crate code reachable from the four conversion entry points is discharged, allowlisted or a recorded known finding.",
@@ -60,7 +60,7 @@ CHECKS = {
          "Necessary structural clauses, one abstract step per method: (ser) each Serializer method builds the JSON shape serde_json's data model prescribes (unit/none -> null, bool, integers and floats through the number crate's same-typed conversion with non-finite floats -> null, char/str -> string, bytes -> array of numbers, newtype transparent, unit variant -> its name, other variants -> single-entry object keyed by the variant name); (key) the key serializer turns strings, chars, integers and unit variants into that text and rejects the rest; (compound) elements/entries appended in order; (de) for every shape the serializer produces the matching deserialize_* method drives the (recorded) probe visitor with the right visit_* call and hands out elements/entries in order; (mapkey) integer-like map keys are parsed at the method's own integer type with a string fallback; (enum) string -> unit variant, single-entry object -> variant + payload.",
          "NOT decided: the round trip for arbitrary user types (quantifies over serde derive output and user impls) and bit-exactness of floats (number crate). serde's data model and derive trusted.", "3/C16"),
  "C17": ("other", "delegation-shape interpretation of Serialize for Value/Object, the map-serializer handshake, visit_map and ValueVisitor; constants decoded from MIR",
-         "Necessary structural clauses: (ser) Serialize for Value/Object maps each variant to the matching serializer call with items and entries in order and numbers delegated to the number crate; (token) the private arbitrary-precision token is the same string constant in json-syntax's serializer, its map visitor and json-number's Serialize; (handshake) the map serializer switches to number mode exactly on an empty object + token key and yields the number at end; (dedup) the map serializer and both visit_map implementations build objects with Object::insert, so duplicate keys collapse to the first position with the last value; (de) ValueVisitor maps every visit_* to the matching variant and collects sequences in order; Value as a Deserializer is C16.de.",
+         "Necessary structural clauses: (ser) Serialize for Value/Object maps each variant to the matching serializer call with items and entries in order and numbers delegated to the number crate; (serializer) the Serializer methods that this drives (unit, bool, i64, u64, f64, str, seq) build the matching variant from the argument itself at its own type; (token) the private arbitrary-precision token is the same string constant in json-syntax's serializer, its map visitor and json-number's Serialize; (handshake) the map serializer switches to number mode exactly on an empty object + token key and yields the number at end; (dedup) the map serializer and both visit_map implementations build objects with Object::insert, so duplicate keys collapse to the first position with the last value; (de) ValueVisitor maps every visit_* to the matching variant and collects sequences in order; Value as a Deserializer is C16.de.",
          "NOT decided: which number spellings survive (json-number decides the encoding per lexical class; the two failing classes named in the property live in that dependency) and numeric equality after conversion.", "3/C17"),
  "C19": ("translation_validation", "token-tree rules over macro_rules! json + translation validation of compiled expansions by abstract interpretation + delegation shapes of the From impls",
          "For every json! invocation of a bounded-exhaustive corpus (all arrays/objects of up to 2 (quick) / 3 (thorough) members over the leaf alphabet {null,true,false,0,-1,1.5,\"a\",[],{}} nested to depth 1 / 2, with and without trailing comma, literal / parenthesised / expression keys, plus seeded random documents up to 5 members and depth 4), compiled against the current tree but never run, the MIR of the expansion interprets to exactly the constructor tree of the written document: same variants, same scalars (integer at i32 / float bits / string text), members in order, none dropped or duplicated, Object::from_vec indexing every position. Independently of the corpus, every arm of the macro definition keeps the accumulator `$($elems,)*`, appends the new element last, passes the rest on unchanged, and the arm order makes keyword/literal/array/object arms win over the expression arms; From<u8..i64|bool|&str|String> for Value hand their argument unchanged to the same-typed conversion.",
